@@ -81,6 +81,16 @@ def run(tier, seed, replay=None):
         for _ in range(3000 if tier == "quick" else 30000):
             prior = tuple((rnd.choice(VARS), g.term(VARS, 2)) for _ in range(rnd.randint(0, 2)))
             cases.append((prior, g.term(VARS, 3), g.term(VARS, 3)))
+        # a compound with NAMED fields one of which is compound-typed (a chain): variables, [] and further links in that position
+        def nlink(d):
+            lab = rnd.choice([1, 2, "x0", "x1"])
+            nxt = rnd.choice(["x0", "x1", "x2", "nil"]) if d == 0 or rnd.random() < 0.4 else nlink(d - 1)
+            return ["comp", "NLink", lab, nxt]
+        for _ in range(1500 if tier == "quick" else 15000):
+            prior = tuple((rnd.choice(VARS), rnd.choice([nlink(1), "nil", 1, rnd.choice(VARS)])) for _ in range(rnd.randint(0, 2)))
+            u = nlink(rnd.randint(0, 2))
+            v = rnd.choice([nlink(rnd.randint(0, 2)), rnd.choice(VARS), u])
+            cases.append((prior, u, v))
     lines = [line(*c) for c in cases]
     exe = C.build_driver()
     model = C._run_lines(exe, lines, C.rundir(PID), "model", 900, env={"OCAMLRUNPARAM": "l=64M"})
